@@ -103,7 +103,17 @@ Definition verdict (c : tcase) : N :=
   let router_wrong := negb no_router && negb (Bool.eqb (tc_status c =? 1) (negb impl_accept)) in
   let lifetime_wrong :=
     (tc_status c =? 0) && (tc_exp c + TOLERANCE <? tc_now c + tc_lifetime c) in
-  (if mis_verify || mis_router then 1 else 0) +
+  (* 3. the oracle answers for the PSSID text against the shapes written in Spec_C10 *)
+  let mis_oracle :=
+    match tc_claims c with
+    | Some cl => match jget "pssid" cl with
+                 | Some (JStr p) => negb (Bool.eqb (uuid_shape p) (tc_uuid_ok c)) ||
+                                    negb (Bool.eqb (pssid1_shape p) (tc_pssid1_ok c))
+                 | _ => false
+                 end
+    | None => false
+    end in
+  (if mis_verify || mis_router || mis_oracle then 1 else 0) +
   (if wrong_verdict || router_wrong || lifetime_wrong || (tc_code c =? 99) || (tc_status c =? 99 ) && negb (I64_LIM <=? tc_exp c) then 2 else 0) +
   (if known then 16 else 0).
 
